@@ -211,7 +211,12 @@ def run(ctx):
     kdiff = 0
     nontrivial = set()
     stats = {'queries': 0, 'found': 0, 'namespace_skipped': 0, 'partial_shadow': 0, 'roundtrips': 0, 'root_is_package': 0, 'walks': 0}
+    _fail = ctx.fail
     for ci, (c, r) in enumerate(zip(cases, res)):
+        # the trees of one worker process are materialised under the same paths one after the other: a failure may depend on the tree before
+        earlier = cases[ci - nw] if ci >= nw else None
+        ctx.fail = (lambda what, wit, _c=c, _e=earlier: _fail(what, dict(wit, links=_c.get('links', []),
+                                                                         tree_under_the_same_paths_before={'roots': _e['roots'], 'links': _e.get('links', [])} if _e else None)))
         if 'harness_error' in r:
             ctx.broken.append(('harness', r['harness_error'][-1500:]))
             continue
@@ -278,6 +283,7 @@ def run(ctx):
                     ctx.broken.append(('K18 correspondence (walk)', 'roots %s package %s: model %s real %s' % (json.dumps(c['roots']), key, mw, real)))
         if len(c['roots']) > 1:
             nontrivial.add(json.dumps(c['roots'], sort_keys=True))
+    ctx.fail = _fail
     ctx.coverage.update({
         'evaluations': stats['queries'] + stats['walks'], 'distinct_nontrivial': len(nontrivial),
         'rule': '1-3 search roots of generated trees (depth <= 4; look-alike names pkg/pkgx/pk/pkg_; non-ASCII identifiers; same stem as file and directory; directories without __init__.py; '
@@ -309,7 +315,10 @@ def partial_shadow(c, name, real):
 def replay(ctx, path):
     data = json.load(open(path))
     w = data.get('witness', data)
-    c = {'roots': w['roots'], 'names': [w['name']] if 'name' in w else [], 'walks': [[int(w['package'].split(':')[0]), w['package'].split(':')[1]]] if 'package' in w else []}
-    r = run_worker(ctx.build(), 'c18_worker.py', {'cases': [c]}, 600)['results'][0]
+    c = {'roots': w['roots'], 'names': [w['name']] if 'name' in w else [], 'walks': [[int(w['package'].split(':')[0]), w['package'].split(':')[1]]] if 'package' in w else [],
+         'links': w.get('links') or []}
+    before = w.get('tree_under_the_same_paths_before')
+    pre = [{'roots': before['roots'], 'names': names_of(before['roots'], None), 'walks': pkg_dirs(before['roots']), 'links': before.get('links') or []}] if before else []
+    r = run_worker(ctx.build(), 'c18_worker.py', {'cases': pre + [c]}, 600)['results'][-1]
     print(json.dumps({'real': r, 'model': lean_driver('fs', model_lines(c))}, indent=1))
     return 0
